@@ -699,8 +699,33 @@ def sample_from(obj, n, pool=None):
     return obj.sample(n)
 
 
-def execute(case, props=('C07', 'C08', 'C09', 'C13'), scratch=None):
-    """Run one bound life cycle.  Returns a result dict."""
+class CaseTimeout(BaseException):
+    pass
+
+
+def _alarm(signum, frame):
+    raise CaseTimeout()
+
+
+def execute(case, props=('C07', 'C08', 'C09', 'C13'), scratch=None,
+            cpu_limit=60):
+    """Run one bound life cycle under a CPU-time limit (a bound whose
+    networks accept practically nothing makes sample() spin for ever: such a
+    life cycle is discarded as 'timeout', it is neither a pass nor a
+    verdict).  Returns a result dict."""
+    import signal
+    old = signal.signal(signal.SIGVTALRM, _alarm)
+    signal.setitimer(signal.ITIMER_VIRTUAL, cpu_limit, 1.0)
+    try:
+        return _execute(case, props, scratch)
+    except CaseTimeout:
+        return dict(status='timeout', stats=dict(ops={}))
+    finally:
+        signal.setitimer(signal.ITIMER_VIRTUAL, 0)
+        signal.signal(signal.SIGVTALRM, old)
+
+
+def _execute(case, props=('C07', 'C08', 'C09', 'C13'), scratch=None):
     import warnings
     warnings.simplefilter('ignore')
     np.seterr(all='ignore')
